@@ -41,6 +41,191 @@ def _is_type(ty, short):
     return False
 
 
+def visitor_total(crate, vm, any_value):
+    """Why the hand-written catch-all visitor `vm` (MIR of its visit_map) is NOT total over objects with an `error` member; [] if it is.
+    Read off the control-flow graph, whatever the idiom (while-let / loop+match / `?` / explicit returns, `|=` / `if eq { flag = true }`):
+      - Ok is returned only after the member source reported exhaustion (the None edge of next_key's result);
+      - every turn of the loop consumes the member's value as an any-value type;
+      - the visitor raises no error of its own while members remain (an Err of the catch-all is a fall-through to the success shape): errors
+        before exhaustion are propagated results of next_key / next_value only;
+      - after exhaustion Ok / Err is decided by a flag that starts false, is only ever raised inside the loop, and is raised on every path
+        from a member-name comparison with "error" that came out equal."""
+    why = []
+    from mir import op_place
+    K = [(b, t) for b, t in vm.iter_terms('call') if t['callee'].get('name') in ('next_key', 'next_key_seed', 'next_entry', 'next_entry_seed')]
+    V = [(b, t) for b, t in vm.iter_terms('call') if t['callee'].get('name') in ('next_value', 'next_value_seed')]
+    if len(K) != 1:
+        return ['expected one call that asks the map for the next member (next_key / next_entry), found %d' % len(K)]
+    kb, kt = K[0]
+    entry_form = kt['callee'].get('name').startswith('next_entry')
+    for b, t in V + ([K[0]] if entry_form else []):
+        args = t['callee'].get('args') or ''
+        if not any(a in args for a in any_value):
+            why.append('a member value is decoded as %s' % args)
+    kt_args = (kt['callee'].get('args') or '').strip('[]').split(', ')
+    kt_args = [x for x in kt_args if not x.startswith("'") and '/#' not in x]
+    if not kt_args or not any(re.search(r'(^|::)(String|Cow<)', x) for x in kt_args[:1]):
+        why.append('member names are decoded as %s: a borrowed or narrower key type does not accept every member name '
+                   '(`{"\\u0065rror":..}` is an owned string in the buffered content), so such a frame falls through to the success shape' % (kt_args[0] if kt_args else '?'))
+    # the exhaustion test: discriminant switch on the Option that came out of K
+    none_t = some_t = None
+    for sw in sorted(vm.reachable(kb)):
+        if vm.is_cleanup(sw) or vm.term(sw)['k'] != 'switch':
+            continue
+        info = vm.switch_info(sw)
+        if not info or info.get('kind') != 'discr':
+            continue
+        ty = (info['place'].get('ty') or '')
+        if not ty.startswith(('std::option::Option<', 'core::option::Option<')):
+            continue
+        locs, evs = vm.slice_back([info['place']['l']])
+        if any(e[0] == 'call' and e[1] == kb for e in evs) and not any(e[0] == 'call' and any(e[1] == vb for vb, _ in V) for e in evs):
+            none_t = info['arms'].get(0, info['otherwise'])
+            some_t = info['arms'].get(1, info['otherwise'])
+            break
+    if none_t is None or none_t == some_t:
+        return why + ['no test of the member source for exhaustion (None from next_key) found']
+    ret0 = {0}
+    for b_, i_, s_ in vm.iter_assigns():
+        if s_['place']['l'] == 0 and not s_['place'].get('p') and s_['rv']['k'] == 'use' and op_place(s_['rv']['op']) and not op_place(s_['rv']['op']).get('p'):
+            ret0.add(op_place(s_['rv']['op'])['l'])
+    oks, errs_own, errs_prop = set(), set(), set()
+    kv_blocks = {kb} | {b for b, _ in V}
+
+    def from_kv(op):
+        q = op_place(op)
+        if not q:
+            return False
+        locs, evs = vm.slice_back([q['l']])
+        return any(e[0] == 'call' and e[1] in kv_blocks for e in evs)
+    for b, i, st in vm.iter_assigns():
+        rv = st['rv']
+        if rv['k'] == 'aggr' and rv.get('adt', '').endswith('result::Result') and st['place']['l'] in ret0 and not st['place'].get('p'):
+            if rv.get('variant') == 'Ok':
+                oks.add(b)
+            elif rv.get('ops') and from_kv(rv['ops'][0]):
+                errs_prop.add(b)
+            else:
+                errs_own.add(b)
+    for b, t in vm.iter_terms('call'):
+        if t['callee'].get('name') == 'from_residual' and t['dest']['l'] in ret0:
+            (errs_prop if t['args'] and from_kv(t['args'][0]) else errs_own).add(b)
+    before = vm.reachable(0, avoid={none_t})
+    if not oks:
+        why.append('the visitor never returns Ok')
+    if oks & before:
+        why.append('Ok can be returned before every member was visited (the loop can stop early: a later member is left unread, which the buffered content of an untagged enum reports as an error - the frame falls through to the success shape)')
+    if errs_own & before:
+        why.append('the visitor can fail on its own while members remain (an error of the catch-all is a fall-through to the success shape)')
+    if not entry_form:
+        if not V:
+            why.append('member values are not consumed')
+        elif kb in vm.reachable(some_t, avoid={b for b, _ in V}):
+            why.append('a turn of the member loop can skip the member\'s value')
+    # the flag that decides Ok / Err after exhaustion
+    after = vm.reachable(none_t)
+    flag = None
+    for sw in sorted(after):
+        if vm.is_cleanup(sw) or vm.term(sw)['k'] != 'switch' or vm.term(sw).get('op_ty') != 'bool':
+            continue
+        info = vm.switch_info(sw)
+        t_true, t_false = info.get('true'), info.get('false')
+        if t_true is None or t_false is None:
+            continue
+        ok_true = bool(oks & vm.reachable(t_true)) and not (oks & vm.reachable(t_false))
+        if ok_true and (errs_own & vm.reachable(t_false)):
+            src = info.get('src') or {}
+            if src.get('kind') == 'place' and not (src['place'].get('p')):
+                flag = src['place']['l']
+            else:
+                q = op_place(vm.term(sw)['op'])
+                flag = q['l'] if q and not q.get('p') else None
+            # through copies
+            for _ in range(4):
+                sd = vm.single_def(flag) if flag is not None else None
+                if sd and sd[2] == 'assign' and sd[3]['rv']['k'] == 'use' and op_place(sd[3]['rv']['op']) and not op_place(sd[3]['rv']['op']).get('p'):
+                    flag = op_place(sd[3]['rv']['op'])['l']
+                else:
+                    break
+            break
+    if flag is None:
+        if oks and not (oks & before) and not (errs_own & after):
+            why.append('after the last member Ok is returned unconditionally: an object without an `error` member is claimed by the catch-all too')
+        else:
+            why.append('Ok is not returned exactly when a flag recording the `error` member is set')
+        return why
+    loop = {b for b in vm.reachable(some_t) if kb in vm.reachable(b)} | {some_t}
+    eq_blocks = []
+    for b, t in vm.iter_terms('call'):
+        if t['callee'].get('name') in ('eq', 'ne') and b in loop:
+            txt = ''
+            for a in t['args']:
+                q = op_place(a)
+                if q:
+                    locs, evs = vm.slice_back([q['l']])
+                    for e in evs:
+                        if e[0] == 'assign':
+                            for o in mir.rv_operands(e[3]['rv']):
+                                if o.get('k') == 'const':
+                                    if o.get('promoted'):
+                                        m = re.search(r'promoted\[(\d+)\]', o.get('s', ''))
+                                        owner = crate.by_path.get(o.get('def')) or vm
+                                        pr = owner.d.get('promoted') or []
+                                        if m and int(m.group(1)) < len(pr):
+                                            txt += ' ; '.join(pr[int(m.group(1))])
+                                    else:
+                                        txt += str(o.get('s', ''))
+                elif a.get('k') == 'const':
+                    txt += str(a.get('s', ''))
+            if '"error"' in txt:
+                eq_blocks.append((b, t))
+    if not eq_blocks:
+        why.append('no comparison of the member name with "error" in the loop')
+        return why
+    stores = [(b, i, st) for b, i, st in vm.iter_assigns() if st['place']['l'] == flag and not st['place'].get('p')]
+    init_false = [b for b, i, st in stores if b not in loop and st['rv']['k'] == 'use' and st['rv']['op'].get('k') == 'const' and st['rv']['op'].get('val') in (False, 0)]
+    other_outside = [b for b, i, st in stores if b not in loop and b not in init_false]
+    if not init_false or other_outside:
+        why.append('the flag does not start as false')
+    raised = set()
+    for b, i, st in stores:
+        if b not in loop:
+            continue
+        rv = st['rv']
+        if rv['k'] == 'use' and rv['op'].get('k') == 'const' and rv['op'].get('val') in (True, 1):
+            raised.add(b)
+        elif rv['k'] == 'bin' and rv.get('op') == 'BitOr' and any((op_place(o) or {}).get('l') == flag for o in (rv['a'], rv['b'])):
+            other = [o for o in (rv['a'], rv['b']) if (op_place(o) or {}).get('l') != flag]
+            q = op_place(other[0]) if other else None
+            if q and any(e[0] == 'call' and any(e[1] == eb for eb, _ in eq_blocks) for e in vm.slice_back([q['l']])[1]):
+                raised.add(b)
+                for eb, et in eq_blocks:
+                    if et['callee'].get('name') == 'ne':
+                        why.append('the flag accumulates `!=` instead of `==`')
+            else:
+                why.append('the flag is or-ed with something that is not the comparison with "error"')
+        else:
+            why.append('the flag is overwritten inside the loop (the last member decides instead of any member)')
+    # raised on every path from an equal comparison back to the next member
+    for eb, et in eq_blocks:
+        nxt = et.get('t')
+        direct = any(b == eb or vm.dominates(eb, b) for b in raised if vm.term(b) is not None) and any(
+            st['rv']['k'] == 'bin' for b, i, st in stores if b in raised)
+        if direct:
+            continue
+        swb = nxt
+        while swb is not None and vm.term(swb)['k'] == 'goto':
+            swb = vm.term(swb)['t']
+        if swb is None or vm.term(swb)['k'] != 'switch':
+            why.append('the result of the comparison with "error" does not reach the flag')
+            continue
+        info = vm.switch_info(swb)
+        eq_edge = info.get('true') if et['callee'].get('name') == 'eq' else info.get('false')
+        if eq_edge is None or kb in vm.reachable(eq_edge, avoid=raised) or (set(vm.returns()) & vm.reachable(eq_edge, avoid=raised | {kb})):
+            why.append('a member named `error` does not raise the flag on every path')
+    return why
+
+
 def check(fx, rep, tier):
     rep.rule('R04.1', 'decode target of receive_reply: untagged enum; attempts ordered standard error, caller error, catch-all, success (last)')
     rep.rule('R04.2', 'an object with an `error` member cannot reach the success shape: catch-all with required any-value `error` member before it, or success type denies unknown members')
@@ -148,50 +333,12 @@ def check(fx, rep, tier):
                         '`{"error":"io.systemd.System","error":"x"}` falls through to the success shape and is reported as a successful reply' % short_ca,
                         {'catch_all': short_ca})
                 continue
-            vm = [(f, n, impl) for f, n, impl in A.all_fns(fx.tpl, 'connection/read_connection.rs') if n['name'] == 'visit_map']
-            des = [(f, n, impl) for f, n, impl in A.all_fns(fx.tpl, 'connection/read_connection.rs')
-                   if n['name'] == 'deserialize' and impl and (impl.get('self_ty') or '') == short_ca and 'Deserialize' in (impl.get('trait') or '')]
+            vms = [b2 for b2 in crate.bodies if b2.name == 'visit_map' and not b2.in_test and re.search(r'\b%s\b' % re.escape(short_ca), (b2.d.get('ret_ty') or '') + ' ' + b2.path)]
             why = []
-            if len(vm) != 1 or len(des) != 1:
-                why.append('expected one hand-written Deserialize impl of %s with one visit_map, found %d / %d' % (short_ca, len(des), len(vm)))
+            if len(vms) != 1:
+                why.append('expected one hand-written visitor (visit_map) producing %s, found %d' % (short_ca, len(vms)))
             else:
-                f, n, impl = vm[0]
-                loops = [x for x in n['body'] if isinstance(x, dict) and (x.get('expr') or x).get('k') == 'while']
-                loops = [(x.get('expr') or x) for x in loops]
-                if len(loops) != 1 or 'next_key' not in (loops[0].get('cond') or ''):
-                    why.append('visit_map is not one `while let Some(key) = map.next_key()?` loop over all members')
-                else:
-                    lp = loops[0]
-                    inner = list(A.nodes(lp.get('body')))
-                    if any(x.get('k') in ('return', 'break') or (x.get('k') == 'call' and x.get('func') == 'Err') for x in inner):
-                        why.append('the member loop can stop early or fail on its own')
-                    cmpn = [x for x in inner if x.get('k') == 'binary' and x.get('op') == '==' and any(isinstance(y, dict) and y.get('k') == 'str' and y.get('value') == 'error' for y in (x.get('l'), x.get('r')))]
-                    flags = set()
-                    for x in inner:
-                        if x.get('k') == 'binary' and x.get('op') in ('|=', '=') and isinstance(x.get('l'), dict) and x['l'].get('k') == 'path':
-                            flags.add(x['l'].get('text'))
-                    if not cmpn or not flags:
-                        why.append('no member-name comparison with "error" recorded in a flag')
-                    if not any(x.get('k') == 'mcall' and x.get('method') == 'next_value' for x in inner):
-                        why.append('member values are not consumed')
-                    tails = [x.get('expr') or x for x in n['body'] if isinstance(x, dict) and (x.get('expr') or x).get('k') == 'if']
-                    ok_tail = any((tl.get('cond') or '').strip() in flags and any(y.get('k') == 'call' and y.get('func') == 'Ok' for y in A.nodes(tl.get('then'))) for tl in tails)
-                    if not ok_tail:
-                        why.append('Ok is not returned exactly when the flag is set')
-                # value type: every next_value is instantiated with an any-value type
-                for b2 in crate.bodies:
-                    if b2.name == 'visit_map' and not b2.in_test and re.search(r'\b%s\b' % re.escape(short_ca), b2.path):
-                        for blk, tm in b2.iter_terms('call'):
-                            if tm['callee'].get('name') == 'next_value' and not any(a in (tm['callee'].get('args') or '') for a in ANY_VALUE):
-                                why.append('a member value is decoded as %s' % tm['callee'].get('args'))
-                            if tm['callee'].get('name') in ('next_key', 'next_entry'):
-                                # the untagged enum replays the frame from serde's buffered Content: a member name that was written with an
-                                # escape is an owned string there, which only an owning key type can be decoded from
-                                kt = (tm['callee'].get('args') or '').strip('[]').split(', ')
-                                kt = [x for x in kt if not x.startswith("'") and '/#' not in x]
-                                if not kt or not any(re.search(r'(^|::)(String|Cow<)', x) for x in kt[:1]):
-                                    why.append('member names are decoded as %s: a borrowed or narrower key type does not accept every member name '
-                                               '(`{"\\u0065rror":..}` is an owned string in the buffered content), so such a frame falls through to the success shape' % (kt[0] if kt else '?'))
+                why = visitor_total(crate, vms[0], ANY_VALUE)
             rep.check(not why, 'R04.5', '%s|catch-all-total|hand-written|%s' % (fk, cfg), '%s:%s' % (co.file, st.get('line')),
                       'the catch-all %s visits every member, ignores the values, and succeeds exactly when a member named `error` was seen (repeated members included)' % short_ca,
                       'the hand-written catch-all %s is not total over objects with an `error` member: %s' % (short_ca, '; '.join(why)))
@@ -242,7 +389,11 @@ def check(fx, rep, tier):
         msw = None
         co_rr = co
         # the classification match: in receive_reply itself or in a function of the module it hands the decoded value to
-        for cand in [co] + [b for b in crate.bodies if not b.in_test and b is not co and (b.file or '').endswith('connection/read_connection.rs')]:
+        def _classifier(b):
+            # derived impls (Debug, Deserialize) also match on the enum: the classification is the function that turns it into the caller's Result
+            it = b.impl_trait or ''
+            return not any(x in it for x in ('Debug', 'Deserialize', 'Serialize', 'Clone', 'PartialEq')) and 'Result' in (b.d.get('ret_ty') or 'Result')
+        for cand in [co] + [b for b in crate.bodies if not b.in_test and b is not co and (b.file or '').endswith('connection/read_connection.rs') and _classifier(b)]:
             for sw in range(cand.n):
                 if cand.is_cleanup(sw) or cand.term(sw)['k'] != 'switch':
                     continue
@@ -293,6 +444,44 @@ def check(fx, rep, tier):
                                     payload_used = any(e[0] == 'assign' and e[3]['rv']['k'] == 'use' and op_place(e[3]['rv']['op']) and
                                                        any(isinstance(pp, dict) and pp.get('dc') == name for pp in (op_place(e[3]['rv']['op']).get('p') or []))
                                                        for e in ev)
+            if outer is None:
+                # the arm only computes the inner value; the outer Ok(..) is built once behind the join:
+                # `let r = match msg { Reply(x) => Ok(x), Error(e) => Err(e), .. => return Err(..) }; Ok(r)`
+                def arm_def(l, depth=0):
+                    for b in sorted(excl):
+                        for s_ in co.stmts(b):
+                            if s_['k'] == 'assign' and s_['place']['l'] == l and not s_['place'].get('p'):
+                                if s_['rv']['k'] == 'aggr':
+                                    return s_['rv']
+                                if s_['rv']['k'] == 'use' and op_place(s_['rv']['op']) and not op_place(s_['rv']['op']).get('p') and depth < 4:
+                                    return arm_def(op_place(s_['rv']['op'])['l'], depth + 1)
+                    return None
+                for b in sorted(region - excl):
+                    for s in co.stmts(b):
+                        if s['k'] == 'assign' and s['rv']['k'] == 'aggr' and s['rv'].get('adt', '').endswith('result::Result') and s['place']['l'] in ret_locals and \
+                                not s['place'].get('p') and s['rv'].get('ops'):
+                            q = op_place(s['rv']['ops'][0])
+                            cur = q['l'] if q and not q.get('p') else None
+                            irv = None
+                            for _ in range(4):
+                                if cur is None:
+                                    break
+                                irv = arm_def(cur)
+                                if irv is not None:
+                                    break
+                                sd = co.single_def(cur)
+                                cur = op_place(sd[3]['rv']['op'])['l'] if sd and sd[2] == 'assign' and sd[3]['rv']['k'] == 'use' and op_place(sd[3]['rv']['op']) and \
+                                    not op_place(sd[3]['rv']['op']).get('p') else None
+                            if irv is not None and irv.get('adt', '').endswith('result::Result'):
+                                outer = s['rv'].get('variant')
+                                inner = ('Result', irv.get('variant'))
+                                if irv.get('ops'):
+                                    q2 = op_place(irv['ops'][0])
+                                    if q2:
+                                        locs, ev = co.slice_back([q2['l']])
+                                        payload_used = any(e[0] == 'assign' and e[3]['rv']['k'] == 'use' and op_place(e[3]['rv']['op']) and
+                                                           any(isinstance(pp, dict) and pp.get('dc') == name for pp in (op_place(e[3]['rv']['op']).get('p') or []))
+                                                           for e in ev)
             want = {'standard': ('Err', ('Error', 'VarlinkService'), True), 'caller': ('Ok', ('Result', 'Err'), True),
                     'success': ('Ok', ('Result', 'Ok'), True), 'other': ('Err', None, False)}[role]
             ok = outer == want[0] and (want[1] is None or inner == want[1]) and (not want[2] or payload_used)
